@@ -1,3 +1,4 @@
 pub mod bundled;
+pub mod cache;
 pub mod check;
 pub mod model;
